@@ -59,7 +59,7 @@ WrapKinds == {"range", "rangekv", "rangeelse", "if", "ifelse", "iflet", "ifletel
 
 \* the wrappers that push interpreter state (used for the deepest enumeration)
 CoreKinds == {"range", "rangekv", "iflet", "let", "ycont", "ycontp", "yctx", "ybody", "ybodyp",
-              "includectx", "exec", "tryin", "catchbody"}
+              "includectx", "exec", "issetexec", "tryin", "catchbody"}
 
 \* wrappers without failures of their own (scoping programs)
 ScopeKinds == WrapKinds \ {"catchbody"}
